@@ -6,6 +6,7 @@ import (
 	"math"
 
 	"github.com/reactivego/ivg"
+	"github.com/reactivego/ivg/raster"
 	"github.com/reactivego/ivg/render"
 
 	"ivgverif/internal/gen"
@@ -22,7 +23,7 @@ import (
 const c05Tol = 2e-6
 
 func init() {
-	min := map[string]int64{"reset_before_setrasterizer": 5000, "rectangle_changed_after_reset": 5000, "renderer_used_for_an_earlier_graphic": 5000, "lattice_mode": 5000, "empty_target_rectangles": 5000, "lattice_operand_equals_pen_pixels": 5000, "paths": 10000, "ops": 100000, "draws": 10000, "smooth_reflected": 1000, "smooth_from_pen": 1000, "rel_move_after_close": 1000, "nonsquare_maps": 5000, "offset_rects": 5000}
+	min := map[string]int64{"reset_before_setrasterizer": 5000, "rectangle_changed_after_reset": 5000, "renderer_used_for_an_earlier_graphic": 5000, "lattice_mode": 5000, "empty_target_rectangles": 5000, "lattice_operand_equals_pen_pixels": 5000, "paths": 10000, "ops": 100000, "draws": 10000, "smooth_reflected": 1000, "smooth_from_pen": 1000, "rel_move_after_close": 1000, "nonsquare_maps": 5000, "offset_rects": 5000, "through_rasterizer_logger": 10000, "through_destination_logger": 10000}
 	for _, a := range gen.NonArcVerbs {
 		for _, b := range gen.NonArcVerbs {
 			min["pair/"+a.String()+">"+b.String()] = 50
@@ -168,26 +169,34 @@ func c05Run(c *run.Ctx, cfg c05Config, ops []rec.Op) bool {
 		rz.ResetLog()
 	}
 	var z render.Renderer
+	// one run in eight puts the public logging wrapper of the rasterizer side
+	// between the Renderer and the recording rasterizer (the Renderer asks its
+	// rasterizer for the pen)
+	var rzDst raster.Rasterizer = rz
+	if (uint64(cfg.rect.Dx())*13+uint64(len(ops))*7)%8 == 5 {
+		rzDst = &raster.RasterizerLogger{Rasterizer: rz}
+		c.Count("through_rasterizer_logger", 1)
+	}
 	// the map from viewBox to rectangle is established by SetRasterizer and
 	// Reset in either order, and again when the rectangle changes afterwards
 	switch (uint64(cfg.rect.Dx())*31 + uint64(len(ops))) % 5 {
 	case 4:
-		z.SetRasterizer(rz, cfg.target())
+		z.SetRasterizer(rzDst, cfg.target())
 		earlierGraphic(&z, cfg.vb)
 		rz.ResetLog()
 		z.Reset(cfg.vb, ivg.DefaultPalette)
 		c.Count("renderer_used_for_an_earlier_graphic", 1)
 	case 0:
 		z.Reset(cfg.vb, ivg.DefaultPalette)
-		z.SetRasterizer(rz, cfg.target())
+		z.SetRasterizer(rzDst, cfg.target())
 		c.Count("reset_before_setrasterizer", 1)
 	case 1:
-		z.SetRasterizer(rz, image.Rect(0, 0, cfg.rect.Dx()*2+3, cfg.rect.Dy()+5))
+		z.SetRasterizer(rzDst, image.Rect(0, 0, cfg.rect.Dx()*2+3, cfg.rect.Dy()+5))
 		z.Reset(cfg.vb, ivg.DefaultPalette)
-		z.SetRasterizer(rz, cfg.target())
+		z.SetRasterizer(rzDst, cfg.target())
 		c.Count("rectangle_changed_after_reset", 1)
 	default:
-		z.SetRasterizer(rz, cfg.target())
+		z.SetRasterizer(rzDst, cfg.target())
 		z.Reset(cfg.vb, ivg.DefaultPalette)
 	}
 	g := &ref.Geom{VB: cfg.vb, DX: cfg.rect.Dx(), DY: cfg.rect.Dy()}
